@@ -39,7 +39,10 @@ CLAIMS = {
             "exact characterisation of where commutativity / De Morgan fail outside the common coverage; correspondence "
             "over packed/unpacked mixes", NOTE, TECH, "6 C11 / AB.9"),
     'C12': ("Lean proof that scalar operators, apply_mask, astype, as_bit_packed_map act on exactly the valid pixels and "
-            "preserve layout; correspondence over dtypes, sentinels, in-place/copying twins", NOTE, TECH, "6 C12"),
+            "preserve layout; API LEVEL (68 theorems): apiScalarOp / apiApplyMask / apiAstype / apiAsBitPacked as explicit "
+            "equations with iff-characterisations of every error class, exactly-the-valid-pixels, sentinel collisions, "
+            "in-place = copying at the driver level; correspondence over dtypes, sentinels, in-place/copying twins",
+            NOTE, TECH, "6 C12 / AB.9"),
     'C13': ("Lean proof of the bit-set semantics of wide-mask rows (pack_testBit, set/clear/xor/and/check specs, "
             "validity iff non-empty, width rules); correspondence over widths and byte-boundary bits with every bit "
             "read back", NOTE, TECH, "6 C13"),
@@ -58,18 +61,27 @@ CLAIMS = {
     'C05': ("Lean proof that every _PackedBoolArray method refines the numpy boolean-array operation on the bit list "
             "(43+ theorems over a byte-heap model with views: slicing, assignment, in-place logic, sum, copy, resize, "
             "popcount LUT), with documented residual deviations as _partial theorems + witnesses; correspondence: "
-            "exhaustive small-size sweeps against numpy twins and packed/unpacked twin map histories",
-            NOTE, TECH, "6 C05"),
+            "exhaustive small-size sweeps against numpy twins and packed/unpacked twin map histories; WORLD LEVEL: two "
+            "worlds differing only in packed vs plain boolean storage answer every protocol line identically and stay "
+            "twins for all 51 operations outside an explicit decidable exception set (twin_step, twin_history, "
+            "asym_twin; each exception class with an evaluated pair of histories)", NOTE, TECH, "6 C05 / AB.9"),
     'C06': ("Lean proof that _apply_operation computes the seeded fold over exactly the valid inputs under the union / "
             "intersection rule for every list of well-formed maps (multiOp_spec, union_fold, intersection_fold) plus "
             "obligations re-proved on every run over the operation table regenerated from /repo (opsTable_ok: every "
-            "filler neutral and dtype-preserving)", NOTE + "translator: harness/translate_ops.py records the wrapper "
-            "arguments by execution.", "Lean 4 theorems + generated table obligations + correspondence", "6 C06"),
+            "filler neutral and dtype-preserving; opsTable_spec: every wrapper passes the ufunc / mode / flags its "
+            "documentation prescribes); API LEVEL (39 theorems): exact success and error conditions, result type of the "
+            "first map, union / intersection coverage, value = fold over exactly the inputs valid at the pixel by their "
+            "own sentinels, neutrality of the start value", NOTE + "translator: harness/translate_ops.py records the "
+            "wrapper arguments by execution.", "Lean 4 theorems + generated table obligations + correspondence",
+            "6 C06 / AB.9"),
     'C07': ("Lean proof that degrade reduces exactly the children of each coarse pixel, masks by validity, keeps "
             "uncovered pixels invalid, handles weights in any block order and the below-coverage path "
             "(degrade_spec, degrade_masked, degradeW_spec, gatherWeights_spec, rehouse_spec); reductions are "
-            "parameters; correspondence with exact rational results", NOTE + "numpy nan-reductions trusted; "
-            "known finding F36 (unmasked integer 'and').", TECH, "6 C07"),
+            "parameters; API LEVEL (126 theorems): layout, kind / sentinel rules, coverage and the value of apiDegrade for "
+            "every kind above and below the coverage order, weighted mean in any block order, the sum / prod exception "
+            "stated exactly, exact success condition; correspondence with exact rational results",
+            NOTE + "numpy nan-reductions trusted; known finding F36 (unmasked integer / wide-mask 'and', and 'or' over a "
+            "non-zero sentinel).", TECH, "6 C07 / AB.9"),
     'C09': ("Lean proof over a heap model with the code's sharing pattern (shared immutable coverage objects, one "
             "buffer per map, copy-on-append) that no step changes what another handle denotes (mutate_frame, "
             "produce_frame, no_tie for every continuation); the sharing pattern itself is checked by two-phase "
